@@ -3,7 +3,8 @@
 //   pool_harness replay  NW NT CLIENT SCHEDULE OUT     force one schedule ("0,1,1,..")
 //   pool_harness random  NW NT CLIENT SEED RUNS OUT    seeded random schedules
 //   pool_harness stress  NW NT CLIENT RUNS OUT         free-running real threads, outcome events only
-// CLIENT: P1 (add all, stop, join)  P2 (block-constructor pattern)  P3 (pinned-test pattern).
+// CLIENT: P1 (add all, stop, join)  P2 (block-constructor pattern)  P3 (pinned-test pattern)
+//         P4 (P1 with two other pools alive at once; free-running mode only).
 // OUT receives the ndjson traces of all executions, each introduced by a Reset event and closed by
 // an End event carrying the schedule that produced it.
 #include <sys/wait.h>
@@ -124,6 +125,36 @@ static void scenario(int nw, int nt, const std::string &client) {
     ev("StopCall");
     pool.stop_all_workers();
     pool.wait_workers();
+  } else if (client == "P4") {
+    // two more pools live alongside the one under test: their life cycles (stopped and joined while this one
+    // still gets tasks; constructed after this one was told to stop) must not matter to it
+    WorkerPool other(nw);
+    int half = nt / 2;
+    for (int i = 1; i <= half; i++) {
+      ev("Submit", i);
+      pool.add_task([i]() {
+        ev("TaskRun", i);
+        ev("TaskEnd", i);
+      });
+    }
+    other.stop_all_workers();
+    other.wait_workers();
+    for (int i = half + 1; i <= nt; i++) {
+      ev("Submit", i);
+      pool.add_task([i]() {
+        ev("TaskRun", i);
+        ev("TaskEnd", i);
+      });
+    }
+    ev("AddDone");
+    ev("StopCall");
+    pool.stop_all_workers();
+    WorkerPool third(nw);
+    pool.wait_workers();
+    ev("JoinReturned");
+    third.stop_all_workers();
+    third.wait_workers();
+    return;
   } else {  // P3
     for (int i = 1; i <= nt; i++) {
       ev("Submit", i);
